@@ -30,6 +30,19 @@ func loadEngine(tier string) (*Engine, error) {
 		BuildFlags: []string{"-tags=verif"},
 		Env:        append(os.Environ(), "GOFLAGS=-mod=mod", "GOPROXY=off", "GOSUMDB=off", "GOTOOLCHAIN=local"),
 	}
+	// GOVC_OVERLAY=<file>=<replacement>[,<file>=<replacement>…]: verify the tree with some files replaced (mutation sweep)
+	if ov := os.Getenv("GOVC_OVERLAY"); ov != "" {
+		cfg.Overlay = map[string][]byte{}
+		for _, kv := range strings.Split(ov, ",") {
+			if i := strings.Index(kv, "="); i > 0 {
+				b, err := os.ReadFile(kv[i+1:])
+				if err != nil {
+					return nil, err
+				}
+				cfg.Overlay[kv[:i]] = b
+			}
+		}
+	}
 	pkgs, err := packages.Load(cfg, "./...")
 	if err != nil {
 		return nil, err
@@ -88,7 +101,34 @@ func loadEngine(tier string) (*Engine, error) {
 		e.seed = -e.seed
 	}
 	e.outDir = filepath.Join(verifDir, "out")
+	// one query directory per process: obligation names repeat across properties (shared functions) and across
+	// scratch runs, and concurrent runs must never read each other's query files
+	e.smtDir = filepath.Join(e.outDir, "smt", fmt.Sprintf("run-%d", os.Getpid()))
 	return e, nil
+}
+
+// cleanupSMT removes this run's query files, except those of the obligations named (failed ones: their replay files
+// point at them). GOVC_KEEP_SMT=1 keeps everything.
+func (e *Engine) cleanupSMT(keep []string) {
+	if os.Getenv("GOVC_KEEP_SMT") != "" {
+		return
+	}
+	if len(keep) == 0 {
+		os.RemoveAll(e.smtDir)
+		return
+	}
+	ents, _ := os.ReadDir(e.smtDir)
+	for _, en := range ents {
+		ok := false
+		for _, k := range keep {
+			if strings.HasPrefix(en.Name(), sanitizeFile(k)+".") {
+				ok = true
+			}
+		}
+		if !ok {
+			os.Remove(filepath.Join(e.smtDir, en.Name()))
+		}
+	}
 }
 
 func hasProp(ps []string, p string) bool {
@@ -158,7 +198,7 @@ func (e *Engine) unitsFor(prop string, filter string) []*Unit {
 		if prop != "" && !hasProp(ct.Props, prop) {
 			continue
 		}
-		if filter != "" && !strings.Contains(k, filter) {
+		if filter != "" && !matchFilter(k, filter) {
 			continue
 		}
 		u, err := e.buildUnit(ct)
@@ -178,6 +218,16 @@ func (e *Engine) unitsFor(prop string, filter string) []*Unit {
 		units = append(units, e.lemmaUnit(l))
 	}
 	return units
+}
+
+// matchFilter: substring match; "=name" matches the function name exactly or one of its closures (name$…).
+func matchFilter(k, filter string) bool {
+	if strings.HasPrefix(filter, "=") {
+		f := filter[1:]
+		return strings.HasSuffix(k, f) && (len(k) == len(f) || k[len(k)-len(f)-1] == '.' || k[len(k)-len(f)-1] == '/') ||
+			strings.Contains(k, f+"$") && (strings.HasPrefix(k, f+"$") || strings.Contains(k, "."+f+"$") || strings.Contains(k, "/"+f+"$"))
+	}
+	return strings.Contains(k, filter)
 }
 
 func main() {
@@ -205,6 +255,24 @@ func main() {
 		os.Exit(0)
 	case "dev":
 		os.Exit(dev(os.Args[2]))
+	case "units":
+		// one line per verified function: contract key, file, first and last line, properties
+		e, err := loadEngine("quick")
+		if err != nil {
+			fmt.Fprintln(os.Stderr, err)
+			os.Exit(2)
+		}
+		for _, u := range e.unitsFor("", "") {
+			if u.ct == nil || u.body == nil || u.outerDecl != nil {
+				continue
+			}
+			fd := e.funcDecls[u.key]
+			if fd == nil {
+				continue
+			}
+			a, b := e.fset.Position(fd.Pos()), e.fset.Position(fd.End())
+			fmt.Printf("%s\t%s\t%d\t%d\t%s\n", u.name, a.Filename, a.Line, b.Line, strings.Join(u.ct.Props, ","))
+		}
 	case "list":
 		e, err := loadEngine("quick")
 		if err != nil {
@@ -261,6 +329,9 @@ func dev(filter string) int {
 		}
 	}
 	fmt.Printf("%d obligations, %d failed\n", len(all), bad)
+	if bad == 0 || os.Getenv("GOVC_VERBOSE") == "" {
+		e.cleanupSMT(nil)
+	}
 	if bad > 0 {
 		return 1
 	}
@@ -527,6 +598,11 @@ func check(prop, tier string) int {
 	os.WriteFile(filepath.Join(evDir, prop+".json"), b, 0o644)
 	fmt.Printf("govc: property=%s tier=%s units=%d obligations=%d discharged=%d cover=%d/%d bounded=%d/%d known=%d violations=%d wall=%.1fs\n",
 		prop, tier, len(units), nObl, nDis, nCoverOK, nCover, nBoundedOK, nBounded, len(knownOut), violations, time.Since(start).Seconds())
+	var keep []string
+	for _, o := range failed {
+		keep = append(keep, o.Name)
+	}
+	e.cleanupSMT(keep)
 	if violations > 0 {
 		return 1
 	}
@@ -558,7 +634,7 @@ func expectedObligations() map[string]int {
 }
 
 func writeReplay(e *Engine, prop string, o *Obl) string {
-	path := filepath.Join(verifDir, "out", "replay", sanitizeFile(o.Name)+".json")
+	path := filepath.Join(verifDir, "out", "replay", prop+"-"+sanitizeFile(o.Name)+".json")
 	var traces [][]string
 	for i, in := range o.Insts {
 		if i < 3 {
@@ -568,7 +644,7 @@ func writeReplay(e *Engine, prop string, o *Obl) string {
 	rep := map[string]interface{}{
 		"property": prop, "obligation": o.Name, "kind": o.Kind, "clause": o.Text, "solver_status": o.Result.Status, "solver": o.Result.Solver,
 		"solver_output": trunc(o.Result.Raw, 4000), "model": trunc(o.Result.Model, 8000), "paths": traces,
-		"smt_file": filepath.Join(e.outDir, "smt", sanitizeFile(o.Name)+".smt2"), "replay_confirmed": false,
+		"smt_file": filepath.Join(e.smtDir, sanitizeFile(o.Name)+".smt2"), "replay_confirmed": false,
 	}
 	if o.Replay != nil {
 		if ok, out := tryReplay(e, prop, o); out != "" {
